@@ -221,9 +221,10 @@ Proof. vm_compute. reflexivity. Qed.
 Lemma codes_lower : table_names_lower fmt_codes = true.
 Proof. vm_compute. reflexivity. Qed.
 
-(* Sprintf("%02d") of every colour number is the two-digit form, 00 .. 19 *)
+(* Sprintf("%02d") of every colour number is the two-digit form, and its first digit is
+   0, 1 or 9 (so that reColor's [019]?\d takes both digits) *)
 Definition colour_ok (c : N) : bool :=
-  streqb (sprintf_02d c) (two_digits c) && (c <? 20).
+  streqb (sprintf_02d c) (two_digits c) && (in_019 (48 + c / 10) && is_digit (48 + c mod 10)).
 Lemma colors_two_digits : forallb (fun nv => colour_ok (snd nv)) fmt_colors = true.
 Proof. vm_compute. reflexivity. Qed.
 
@@ -658,5 +659,232 @@ Proof.
   - intros s [H|[H|[H|[H|[H|[H|[H|[]]]]]]]]; try discriminate; injection H as <-; vm_compute;
       intuition discriminate.
   - repeat (apply Forall_cons; [vm_compute; intuition discriminate|]). apply Forall_nil.
+  - vm_compute. reflexivity.
+Qed.
+
+Lemma trim_fmt_any_order_no_open order ps :
+  Permutation order trim_names -> lits_ok no_open ps -> Forall tok_wf ps ->
+  trim_fmt order (render ps) = trim_expected ps.
+Proof. intros P HL HW. apply trim_fmt_any_order; [exact P|split; assumption]. Qed.
+
+(* ====================================================================================== *)
+(* StripRaw after Fmt                                                                     *)
+(* ====================================================================================== *)
+
+Lemma recolor_aux_cons0 c r :
+  recolor_aux 0 (c :: r) =
+  if N.eqb c 3 then
+    match match_color_tail r with
+    | Some n => recolor_aux n r
+    | None => c :: recolor_aux 0 r
+    end
+  else c :: recolor_aux 0 r.
+Proof. reflexivity. Qed.
+
+Lemma recolor_copy s R : ~ In 3 s -> recolor_aux 0 (s ++ R) = s ++ recolor_aux 0 R.
+Proof.
+  induction s as [|c s IH]; intros H; [reflexivity|].
+  change ((c :: s) ++ R) with (c :: (s ++ R)). rewrite recolor_aux_cons0.
+  rewrite neq_eqb_false by (intros ->; apply H; now left).
+  rewrite IH by (intros X; apply H; now right). reflexivity.
+Qed.
+
+Definition head_digit (s : str) : bool := match s with c :: _ => is_digit c | [] => false end.
+Definition head_comma (s : str) : bool := match s with c :: _ => N.eqb c comma_c | [] => false end.
+
+Lemma starts_split s : starts_digit_or_comma s = head_digit s || head_comma s.
+Proof. destruct s; reflexivity. Qed.
+
+Lemma in_019_digit a : in_019 a = true -> is_digit a = true.
+Proof. unfold in_019, is_digit. lia. Qed.
+
+Lemma match_num_none s : head_digit s = false -> match_num s = None.
+Proof.
+  destruct s as [|a [|b s]]; simpl; intros H; [reflexivity|now rewrite H|].
+  rewrite H. destruct (in_019 a) eqn:E; [apply in_019_digit in E; congruence|reflexivity].
+Qed.
+
+(* a bare \x03 (the {c}/{clear} code) in front of text that does not start with a digit *)
+Lemma recolor_bare R : head_digit R = false -> recolor_aux 0 (3 :: R) = 3 :: recolor_aux 0 R.
+Proof.
+  intros H. rewrite recolor_aux_cons0. cbn [N.eqb Pos.eqb]. unfold match_color_tail.
+  now rewrite match_num_none.
+Qed.
+
+Lemma match_num_two d1 d2 R : in_019 d1 = true -> is_digit d2 = true -> match_num (d1 :: d2 :: R) = Some 2%nat.
+Proof. intros H1 H2. cbn [match_num]. now rewrite H1, H2. Qed.
+
+(* "\x03NN" in front of text that does not start with a comma *)
+Lemma recolor_colour c R :
+  colour_ok c = true -> head_comma R = false ->
+  recolor_aux 0 (colour_seq c ++ R) = recolor_aux 0 R.
+Proof.
+  unfold colour_ok. intros H HR. apply andb_true_iff in H as [_ H]. apply andb_true_iff in H as [H1 H2].
+  unfold colour_seq, two_digits. cbn [app]. rewrite recolor_aux_cons0. cbn [N.eqb Pos.eqb].
+  unfold match_color_tail. rewrite match_num_two by assumption. cbn [skipn].
+  destruct R as [|c0 R]; [reflexivity|]. cbn [head_comma] in HR. rewrite HR. reflexivity.
+Qed.
+
+(* "\x03NN,MM" whatever follows *)
+Lemma recolor_pair cf cb R :
+  colour_ok cf = true -> colour_ok cb = true ->
+  recolor_aux 0 ((colour_seq cf ++ comma_c :: two_digits cb) ++ R) = recolor_aux 0 R.
+Proof.
+  unfold colour_ok. intros Hf Hb.
+  apply andb_true_iff in Hf as [_ Hf]. apply andb_true_iff in Hf as [F1 F2].
+  apply andb_true_iff in Hb as [_ Hb]. apply andb_true_iff in Hb as [B1 B2].
+  unfold colour_seq, two_digits. cbn [app]. rewrite recolor_aux_cons0. cbn [N.eqb Pos.eqb].
+  unfold match_color_tail. rewrite match_num_two by assumption. cbn [skipn].
+  rewrite N.eqb_refl. rewrite match_num_two by assumption. reflexivity.
+Qed.
+
+(* the values of fmtCodes: one control byte each *)
+Lemma code_value_cases k b : lookup k fmt_codes = Some b ->
+  b = [1] \/ b = [2] \/ b = [3] \/ b = [15] \/ b = [22] \/ b = [29] \/ b = [31].
+Proof.
+  intros H. apply lookup_In in H. apply (in_map snd) in H. cbn in H.
+  repeat (destruct H as [H|H]; [rewrite <- H; tauto|]). destruct H.
+Qed.
+
+(* what reColor leaves of the expected text: the colour sequences are gone *)
+Definition decolored1 (p : piece) : str :=
+  match p with
+  | Lit s => s
+  | Tok n => match colour_of n with
+             | Some _ => []
+             | None => match code_of n with Some b => b | None => [] end
+             end
+  | Tok2 _ _ => []
+  end.
+Definition decolored (ps : list piece) : str := concat (List.map decolored1 ps).
+
+Lemma expected_cons p ps : expected (p :: ps) = expected1 p ++ expected ps.
+Proof. reflexivity. Qed.
+
+(* Fmt's output starts with a digit / a comma only if the format text does *)
+Lemma expected_head ps (h : str -> bool) :
+  (h = head_digit \/ h = head_comma) ->
+  Forall known1 ps -> h (render ps) = false -> h (expected ps) = false.
+Proof.
+  intros Hh HK. induction HK as [|p ps K _ IH]; intros H; [destruct Hh; subst; reflexivity|].
+  rewrite render_cons in H. rewrite expected_cons.
+  destruct p as [s|n|f b].
+  - cbn [render1 expected1] in *. destruct s as [|c s]; [now apply IH|].
+    destruct Hh; subst; exact H.
+  - cbn [expected1]. cbn [known1] in K. destruct (colour_of n) as [c|] eqn:Ec.
+    + destruct Hh; subst; reflexivity.
+    + destruct K as [K|K]; [congruence|]. destruct (code_of n) as [cb|] eqn:Ed; [|congruence].
+      apply code_value_cases in Ed.
+      destruct Ed as [->|[->|[->|[->|[->|[->| ->]]]]]]; destruct Hh; subst; reflexivity.
+  - cbn [expected1]. cbn [known1] in K. destruct K as [Kf Kb].
+    destruct (colour_of f) eqn:Ef; [|congruence]. destruct (colour_of b) eqn:Eb; [|congruence].
+    destruct Hh; subst; reflexivity.
+Qed.
+
+Lemma starts_false s : starts_digit_or_comma s = false -> head_digit s = false /\ head_comma s = false.
+Proof. rewrite starts_split. now apply orb_false_iff. Qed.
+
+Lemma ctrl_free_no3 s : ctrl_free s -> ~ In 3 s.
+Proof. intros H X. apply H in X. discriminate. Qed.
+
+Lemma recolor_pieces ps :
+  lits_ok ctrl_free ps -> Forall known1 ps -> spaced colourish ps ->
+  recolor_aux 0 (expected ps) = decolored ps.
+Proof.
+  intros HL HK. revert HL. induction HK as [|p ps K HK IH]; intros HL HS; [reflexivity|].
+  cbn [spaced] in HS. destruct HS as [HS1 HS].
+  assert (recolor_aux 0 (expected ps) = decolored ps) as IH'.
+  { apply IH; [intros s Hs; apply HL; now right|exact HS]. }
+  rewrite expected_cons. unfold decolored. cbn [map concat]. fold (decolored ps).
+  destruct p as [s|n|f b].
+  - cbn [expected1 decolored1]. rewrite recolor_copy; [now rewrite IH'|].
+    apply ctrl_free_no3, HL. now left.
+  - cbn [expected1 decolored1]. cbn [known1] in K. cbn [colourish] in HS1.
+    destruct (colour_of n) as [c|] eqn:Ec.
+    + specialize (HS1 eq_refl). apply starts_false in HS1 as [_ HC].
+      rewrite recolor_colour; [exact IH'|eapply colour_lookup_ok; exact Ec|].
+      apply (expected_head ps head_comma); auto.
+    + destruct K as [K|K]; [congruence|]. destruct (code_of n) as [cb|] eqn:Ed; [|congruence].
+      pose proof (code_value_cases _ _ Ed) as Cases.
+      destruct Cases as [->|[->|[->|[->|[->|[->| ->]]]]]];
+        try (cbn [app]; rewrite recolor_aux_cons0; cbn [N.eqb Pos.eqb]; now rewrite IH').
+      specialize (HS1 eq_refl). apply starts_false in HS1 as [HD _].
+      cbn [app]. rewrite recolor_bare; [now rewrite IH'|].
+      apply (expected_head ps head_digit); auto.
+  - cbn [expected1 decolored1]. cbn [known1] in K. destruct K as [Kf Kb].
+    destruct (colour_of f) as [cf|] eqn:Ef; [|congruence].
+    destruct (colour_of b) as [cb|] eqn:Eb; [|congruence].
+    rewrite recolor_pair; [exact IH'| |]; eapply colour_lookup_ok; eassumption.
+Qed.
+
+Lemma filter_decolored ps :
+  lits_ok ctrl_free ps -> Forall known1 ps ->
+  filter (fun x => negb (is_ctrl x)) (decolored ps) = literals ps.
+Proof.
+  intros HL HK. revert HL. induction HK as [|p ps K HK IH]; intros HL; [reflexivity|].
+  unfold decolored, literals. cbn [map concat]. fold (decolored ps). fold (literals ps).
+  rewrite filter_app. rewrite IH by (intros s Hs; apply HL; now right). f_equal.
+  destruct p as [s|n|f b]; cbn [decolored1 literals1].
+  - apply filter_all_true. intros x Hx. assert (ctrl_free s) as C by (apply HL; now left).
+    now rewrite (C x Hx).
+  - destruct (colour_of n); [reflexivity|]. destruct (code_of n) as [cb|] eqn:Ed; [|reflexivity].
+    apply code_value_cases in Ed. destruct Ed as [->|[->|[->|[->|[->|[->| ->]]]]]]; reflexivity.
+  - reflexivity.
+Qed.
+
+(* C20_strip_fmt *)
+Lemma strip_fmt_pieces ps :
+  lits_ok (fun s => no_open s /\ ctrl_free s) ps -> Forall known1 ps -> spaced colourish ps ->
+  strip_raw (fmt (render ps)) = literals ps.
+Proof.
+  intros HL HK HS.
+  assert (lits_ok no_open ps) as H1 by (intros s Hs; exact (proj1 (HL s Hs))).
+  assert (lits_ok ctrl_free ps) as H2 by (intros s Hs; exact (proj2 (HL s Hs))).
+  rewrite fmt_pieces by assumption. rewrite strip_raw_filter. unfold recolor.
+  rewrite recolor_pieces by assumption. now apply filter_decolored.
+Qed.
+
+Lemma strip_fmt_pieces_brace_free ps :
+  lits_ok (fun s => brace_free s /\ ctrl_free s) ps -> Forall known1 ps -> spaced colourish ps ->
+  strip_raw (fmt (render ps)) = literals ps.
+Proof.
+  intros HL. apply strip_fmt_pieces. intros s Hs. destruct (HL s Hs) as [[H _] C]. now split.
+Qed.
+
+Example strip_fmt_example :
+  let ps := [Tok (bs "rEd"); Lit (bs "apples, 5"); Tok (bs "B"); Lit (bs "1 pear");
+             Tok2 (bs "Red") (bs "BLUE"); Lit (bs "x,2}"); Tok (bs "c"); Lit (bs " 7")] in
+  lits_ok (fun s => no_open s /\ ctrl_free s) ps /\ Forall known1 ps /\ spaced colourish ps /\
+  strip_raw (fmt (render ps)) = bs "apples, 51 pearx,2} 7".
+Proof.
+  cbv zeta. split; [|split; [|split]].
+  - intros s [H|[H|[H|[H|[H|[H|[H|[H|[]]]]]]]]]; try discriminate; injection H as <-; split;
+      try (vm_compute; intuition discriminate);
+      intros x Hx; vm_compute in Hx;
+      repeat (destruct Hx as [<-|Hx]; [reflexivity|]); destruct Hx.
+  - repeat (apply Forall_cons;
+      [vm_compute; ((left; discriminate) || (right; discriminate) || (split; discriminate) || exact I)|]).
+    apply Forall_nil.
+  - vm_compute. intuition discriminate.
+  - vm_compute. reflexivity.
+Qed.
+
+(* Read literally - "colour token" = a name of fmtColors or a pair - the clause does not
+   hold: the code of {c}/{clear} is the bare colour introducer \x03, so a digit after it is
+   read as a colour number.  Fmt("{c}5") = "\x035" and StripRaw of it is "", not "5".
+   `colourish` therefore counts {c}/{clear} among the colour tokens. *)
+Example strip_fmt_literal_reading_refuted :
+  exists ps,
+    lits_ok (fun s => brace_free s /\ ctrl_free s) ps /\ Forall known1 ps /\ spaced colour_tok ps /\
+    fmt (render ps) = [3; 53] /\ strip_raw (fmt (render ps)) = [] /\ literals ps = [53].
+Proof.
+  exists [Tok (bs "c"); Lit [53]]. split; [|split; [|split; [|split; [|split]]]].
+  - intros s [H|[H|[]]]; try discriminate. injection H as <-. split.
+    + vm_compute. intuition discriminate.
+    + intros x [<-|[]]. reflexivity.
+  - repeat (apply Forall_cons; [vm_compute; ((right; discriminate) || exact I)|]). apply Forall_nil.
+  - vm_compute. intuition discriminate.
+  - vm_compute. reflexivity.
+  - vm_compute. reflexivity.
   - vm_compute. reflexivity.
 Qed.
